@@ -25,6 +25,7 @@ use std::sync::Arc;
 use std::time::{Duration, Instant};
 
 pub mod fl;
+pub mod fillgen;
 pub use fl::Fl;
 
 // ---------------------------------------------------------------------------------------------
@@ -309,6 +310,26 @@ impl Ctx {
         G: FnOnce(&mut Rng) -> (Out, String, R),
         R: FnOnce() -> CaseOut,
     {
+        self.case_inner(family, gen, |r: R| (r(), None));
+    }
+
+    /// Like `case`, for families decided by a checker on the model side (family names start
+    /// with `chk_`): the closure additionally returns the checker's input (typically the
+    /// implementation's output in exact form), printed as `CHECK <id> <family> <args>`; the
+    /// model driver answers CHECK lines with its verdict and ignores the CASE line.
+    pub fn case_check<G, R>(&mut self, family: &str, gen: G)
+    where
+        G: FnOnce(&mut Rng) -> (Out, String, R),
+        R: FnOnce() -> (CaseOut, Option<Out>),
+    {
+        self.case_inner(family, gen, |r: R| r());
+    }
+
+    fn case_inner<G, R, W>(&mut self, family: &str, gen: G, wrap: W)
+    where
+        G: FnOnce(&mut Rng) -> (Out, String, R),
+        W: FnOnce(R) -> (CaseOut, Option<Out>),
+    {
         let id = self.next_id;
         self.next_id += 1;
         if let Some(o) = self.only {
@@ -325,11 +346,14 @@ impl Ctx {
         let _ = self.out.flush();
         let ds = (self.start.elapsed().as_millis() / 100) as u64;
         self.heartbeat.store((id << 24) | (ds & 0xFF_FFFF), Ordering::SeqCst);
-        let res = catch_unwind(AssertUnwindSafe(run));
+        let res = catch_unwind(AssertUnwindSafe(move || wrap(run)));
         self.heartbeat.store(u64::MAX, Ordering::SeqCst);
         match res {
-            Ok(co) => {
+            Ok((co, chk)) => {
                 let _ = writeln!(self.out, "IMPL {} {}", id, co.imp.0);
+                if let Some(c) = chk {
+                    let _ = writeln!(self.out, "CHECK {} {} {}", id, family, c.0);
+                }
                 match co.orcl {
                     Verdict::Ok => {
                         let _ = writeln!(self.out, "ORCL {} ok", id);
